@@ -190,11 +190,20 @@ impl DimacsDoc {
     /// Renders with the crate's writers (C03).
     pub fn write_with_crate(&self, lit: u8) -> Vec<u8> {
         use flussab::DeferredWriter;
-        use flussab_cnf::{cnf, gcnf, wcnf, Dimacs};
         let mut out = Vec::new();
         {
             let mut w = DeferredWriter::from_write(&mut out);
             crate::inputs::write_pad(&mut w);
+            self.write_into(&mut w, lit);
+            let _ = std::io::Write::flush(&mut w);
+        }
+        crate::inputs::strip_pad(out)
+    }
+
+    /// Writes the document with the crate's header / clause functions into a writer of the caller.
+    pub fn write_into(&self, w: &mut flussab::DeferredWriter, lit: u8) {
+        use flussab_cnf::{cnf, gcnf, wcnf, Dimacs};
+        {
             fn conv<L: Dimacs>(l: &[i64]) -> Vec<L> {
                 l.iter().map(|&x| L::from_dimacs(x as isize)).collect()
             }
@@ -203,14 +212,14 @@ impl DimacsDoc {
                     if let Some((a, b, c)) = self.header {
                         match self.kind {
                             ParserId::Cnf => cnf::write_header(
-                                &mut w,
+                                &mut *w,
                                 cnf::Header {
                                     var_count: a as usize,
                                     clause_count: b as usize,
                                 },
                             ),
                             ParserId::Wcnf => wcnf::write_header(
-                                &mut w,
+                                &mut *w,
                                 wcnf::Header {
                                     var_count: a as usize,
                                     clause_count: b as usize,
@@ -218,7 +227,7 @@ impl DimacsDoc {
                                 },
                             ),
                             _ => gcnf::write_header(
-                                &mut w,
+                                &mut *w,
                                 gcnf::Header {
                                     var_count: a as usize,
                                     clause_count: b as usize,
@@ -230,9 +239,9 @@ impl DimacsDoc {
                     for (x, lits) in &self.clauses {
                         let l = conv::<$t>(lits);
                         match self.kind {
-                            ParserId::Cnf => cnf::write_clause(&mut w, &l),
-                            ParserId::Wcnf => wcnf::write_clause(&mut w, *x, &l),
-                            _ => gcnf::write_clause(&mut w, *x as usize, &l),
+                            ParserId::Cnf => cnf::write_clause(&mut *w, &l),
+                            ParserId::Wcnf => wcnf::write_clause(&mut *w, *x, &l),
+                            _ => gcnf::write_clause(&mut *w, *x as usize, &l),
                         }
                     }
                 }};
@@ -244,9 +253,7 @@ impl DimacsDoc {
                 3 => body!(i64),
                 _ => body!(isize),
             }
-            let _ = std::io::Write::flush(&mut w);
         }
-        crate::inputs::strip_pad(out)
     }
 }
 
